@@ -2446,8 +2446,11 @@ class ResetIndex(Elemwise):
                 elif self.frame._meta.index.name is not None:
                     name = self.frame._meta.index.name
                 # replace the projection of the former index with the actual index
+                # (as a Series, the predicate may use any Series method on it)
                 subs = Projection(self, name)
-                predicate = parent.predicate.substitute(subs, Index(self.frame))
+                predicate = parent.predicate.substitute(
+                    subs, ToSeriesIndex(Index(self.frame), name=name)
+                )
                 # the other columns used by the predicate come from the frame
                 if self.frame.ndim == 1:
                     subs = Projection(self, self.frame._meta.name)
